@@ -350,6 +350,15 @@ theorem C04_expression_item_iff (path : String) (env : Env) (s : Schema) (fuel :
     hasError (ruleItemDiags path env s fuel e r it) = false ↔ RuleItemWF env s fuel e r it :=
   ruleItem_noError_iff path env s fuel e r it
 
+/-- **bare attribute references** (`VARfind`, the marked search): with the fuel the passes use, the look-up succeeds ⇔ the entity
+    itself or an entity reachable from it through `SUBTYPE OF` declares the attribute — on cyclic supertype graphs too, where
+    `ENTITYget_named_attribute` (used for `SELF.a`) does not terminate -/
+theorem C04_bare_lookup_iff (s : Schema) (an : String) (en : String) :
+    varFind s an (s.decls.length + 1) en = true ↔ ∃ x, ReachRefl (superGraph s) en x ∧ ownsAttr s an x = true := by
+  apply varFind_iff
+  have : s.entities.length ≤ s.decls.length := List.length_filterMap_le _ _
+  omega
+
 /-- **function bodies, global RULEs, constants**: their expressions produce no ERROR ⇔ every call names a function and every
     bare identifier is a parameter / local variable or known to the schema scope -/
 theorem C04_algorithm_expressions_iff (path : String) (env : Env) (s : Schema) :
